@@ -55,8 +55,11 @@ pub async fn read_all(repo: &tough::Repository, raw: &str, wd: Duration) -> Resu
 fn run_case(w: &mut Worker, i: u64) -> CaseOut {
     let mut out = CaseOut::default();
     let mut r = Rng::for_case(w.cfg.seed, "C19", i);
+    // one case in eight goes through `tuftool clone` (source read through file:// URLs, so its
+    // target names are URL-inert; role names stay arbitrary)
+    let cli = i % 8 == 3 && Path::new(crate::props::c20::TUFTOOL).exists();
     let opts = GenOpts {
-        odd_target_names: r.chance(1, 2),
+        odd_target_names: !cli && r.chance(1, 2),
         odd_role_names: r.chance(1, 2),
         extras: false,
         max_depth: r.usize(4),
@@ -74,11 +77,20 @@ fn run_case(w: &mut Worker, i: u64) -> CaseOut {
         built.files.insert(meta_path(spec.consistent, v, "root"), b.clone());
         root_bytes[v as usize] = b;
     }
+    let dir = w.case_dir();
+    let srcdir = dir.join("src");
+    if cli {
+        // `tuftool clone` reads the source through file:// URLs
+        for (k, v) in &built.files {
+            let p = srcdir.join(k.trim_start_matches('/'));
+            std::fs::create_dir_all(p.parent().unwrap()).unwrap();
+            std::fs::write(p, v).unwrap();
+        }
+    }
     rekey_targets_for_url(&mut built, &spec);
     let shipped_version = if r.bool() { 1 } else { nroots };
     let shipped = root_bytes[shipped_version as usize].clone();
     let t = MemTransport::new(built.files.clone());
-    let dir = w.case_dir();
     let wd = client::watchdog(w.cfg.tier);
     let src_ds = dir.join("src-ds");
     std::fs::create_dir_all(&src_ds).unwrap();
@@ -108,7 +120,7 @@ fn run_case(w: &mut Worker, i: u64) -> CaseOut {
         None => all.clone(),
         Some(s) => all.iter().filter(|t| s.contains(&t.name)).copied().collect(),
     };
-    let chain = r.bool();
+    let chain = r.bool() || cli; // tuftool clone always copies the root chain
     // optional corruption of one requested target at the source
     let corrupt: Option<&TargetSpec> = if !requested.is_empty() && r.chance(1, 4) {
         Some(requested[r.usize(requested.len())])
@@ -120,6 +132,17 @@ fn run_case(w: &mut Worker, i: u64) -> CaseOut {
         if let Some(k) = url_key(crate::memtransport::TARGETS_BASE, &fname) {
             t.set_fault(&k, if c.content.is_empty() { Fault::Extend(3) } else { Fault::FlipBit(c.content.len() * 4) });
         }
+        if cli {
+            let p = srcdir.join("targets").join(&fname);
+            let mut b = c.content.clone();
+            if b.is_empty() {
+                b.extend_from_slice(b"xyz");
+            } else {
+                let m = b.len() / 2;
+                b[m] ^= 0x10;
+            }
+            std::fs::write(p, b).unwrap();
+        }
     }
     let parent = dir.join("parent");
     let md = parent.join("md");
@@ -127,15 +150,46 @@ fn run_case(w: &mut Worker, i: u64) -> CaseOut {
     std::fs::create_dir_all(&parent).unwrap();
     std::fs::write(parent.join("sentinel"), b"s").unwrap();
     let before = fstree::snapshot(&parent);
-    let cres = w.rt.block_on(async {
-        tokio::time::timeout(wd, async {
-            match &subset {
-                None => src.cache(&md, &tg, None::<&[String]>, chain).await,
-                Some(s) => src.cache(&md, &tg, Some(s.as_slice()), chain).await,
+    // (ok?, text) of the caching step, through the library or through the command line tool
+    let cres: (bool, String) = if cli {
+        out.h("via=tuftool-clone");
+        let shipped_path = dir.join("shipped-root.json");
+        std::fs::write(&shipped_path, &shipped).unwrap();
+        let mut cmd = std::process::Command::new(crate::props::c20::TUFTOOL);
+        cmd.arg("clone")
+            .args(["--root", shipped_path.to_str().unwrap()])
+            .args(["--metadata-url", &format!("file://{}/", srcdir.join("metadata").to_str().unwrap())])
+            .args(["--targets-url", &format!("file://{}/", srcdir.join("targets").to_str().unwrap())])
+            .args(["--metadata-dir", md.to_str().unwrap()])
+            .args(["--targets-dir", tg.to_str().unwrap()]);
+        if let Some(s) = &subset {
+            for n in s {
+                cmd.args(["-n", n]);
             }
-        })
-        .await
-    });
+        }
+        cmd.env("RUST_BACKTRACE", "0").env("RUST_LIB_BACKTRACE", "0");
+        match cmd.stdin(std::process::Stdio::null()).output() {
+            Err(e) => (false, format!("cannot run tuftool: {e}")),
+            Ok(o) if o.status.success() => (true, "ok".into()),
+            Ok(o) => (false, format!("tuftool clone failed: {}", String::from_utf8_lossy(&o.stderr).chars().take(300).collect::<String>())),
+        }
+    } else {
+        out.h("via=library");
+        let r = w.rt.block_on(async {
+            tokio::time::timeout(wd, async {
+                match &subset {
+                    None => src.cache(&md, &tg, None::<&[String]>, chain).await,
+                    Some(s) => src.cache(&md, &tg, Some(s.as_slice()), chain).await,
+                }
+            })
+            .await
+        });
+        match r {
+            Err(_) => (false, "watchdog".to_string()),
+            Ok(Ok(())) => (true, "ok".to_string()),
+            Ok(Err(e)) => (false, client::full_error(&e)),
+        }
+    };
     out.evals += 1;
     let after = fstree::snapshot(&parent);
     let d = fstree::diff(&before, &after);
@@ -144,19 +198,10 @@ fn run_case(w: &mut Worker, i: u64) -> CaseOut {
             out.viol("escape", format!("cache() changed {} outside of {} and {}", p.display(), md.display(), tg.display()));
         }
     }
-    let cache_ok = match &cres {
-        Err(_) => {
-            out.inconc("watchdog");
-            false
-        }
-        Ok(Ok(())) => true,
-        Ok(Err(_)) => false,
-    };
-    let cache_txt = match &cres {
-        Err(_) => "watchdog".to_string(),
-        Ok(Ok(())) => "ok".to_string(),
-        Ok(Err(e)) => client::full_error(e),
-    };
+    let (cache_ok, cache_txt) = cres;
+    if cache_txt == "watchdog" {
+        out.inconc("watchdog");
+    }
     let expected_file = |t: &TargetSpec| -> std::path::PathBuf {
         let tn = TargetName::new(t.name.clone()).unwrap();
         if spec.consistent {
@@ -284,6 +329,11 @@ fn run_case(w: &mut Worker, i: u64) -> CaseOut {
 pub fn run(cfg: &Cfg) -> i32 {
     let start = Instant::now();
     let _ = crate::keys::pool();
+    // the command line leg needs the tuftool binary built from /repo's working tree
+    if let Err(e) = crate::props::c20::build_tuftool() {
+        println!("BROKEN-HARNESS: {e}");
+        return 2;
+    }
     let n = cfg.tier.pick(1_500u64, 25_000);
     let budget = cfg.tier.pick(Duration::from_secs(400), Duration::from_secs(2400));
     let ev = par_run(cfg, n, budget, |w, i| Some(run_case(w, i)));
@@ -297,6 +347,8 @@ pub fn run(cfg: &Cfg) -> i32 {
         "roots=3".into(),
         "delegation-depth=3".into(),
         "target-read-back:class=inert".into(),
+        "via=library".into(),
+        "via=tuftool-clone".into(),
     ];
     finish(
         cfg,
